@@ -389,3 +389,41 @@ Proof.
       apply (Bx y); [now apply FE|]. rewrite !sobj_val in Y2. rewrite sobj_val in L.
       unfold better, unsign in *. destruct (pmode P); lra.
 Qed.
+
+(* ---------- verified comparison of a claimed answer with the reference answer ---------- *)
+Definition feasible_b (P : problem) (p : list Q) : bool :=
+  sat_sys_b (sys_of P) (pt_of p) && ints_ok_b (pints P) (pt_of p).
+
+Lemma feasible_b_ok P p : feasible_b P p = true -> feasible P (pt_of p).
+Proof.
+  unfold feasible_b. rewrite andb_true_iff. intros [A B]. apply feasible_sys.
+  split; [now apply sat_sys_b_ok|now apply ints_ok_b_ok].
+Qed.
+
+(* [claim_ok P r c]: the claimed result c is accepted given the reference result r *)
+Definition claim_ok (P : problem) (r c : result) : bool :=
+  match r, c with
+  | RInfeasible, RInfeasible => true
+  | RUnbounded _, RUnbounded p => feasible_b P p
+  | ROptimal v _, ROptimal w p => feasible_b P p && Qeq_bool (objv P (pt_of p)) w && Qeq_bool v w
+  | _, _ => false
+  end.
+
+Lemma optimal_transfer P v x w y : Optimal P v x -> feasible P y -> objv P y == w -> v == w -> Optimal P w y.
+Proof.
+  intros [_ [_ B]] Fy Ey E. split; [exact Fy|]. split; [exact Ey|]. intros z Fz Hb. apply (B z Fz).
+  unfold better in *. destruct (pmode P); lra.
+Qed.
+
+Theorem claim_ok_sound P r c : spec P r -> claim_ok P r c = true -> spec P c.
+Proof.
+  destruct r as [|p0|v p0], c as [|p|w p]; cbn [claim_ok spec]; intros S H; try discriminate.
+  - exact S.
+  - split; [exact (proj1 S)|now apply feasible_b_ok].
+  - apply andb_true_iff in H. destruct H as [H H3]. apply andb_true_iff in H. destruct H as [H1 H2].
+    apply Qeq_bool_iff in H2. apply Qeq_bool_iff in H3.
+    exact (optimal_transfer P v _ w _ S (feasible_b_ok _ _ H1) H2 H3).
+Qed.
+
+Corollary claim_checked fuel P r c : mip_ref fuel P = Ans r -> claim_ok P r c = true -> spec P c.
+Proof. intros H. apply claim_ok_sound. exact (mip_ref_sound _ _ _ H). Qed.
